@@ -28,7 +28,7 @@ Next ==
             /\ L' = LInit(FALSE, Zero) /\ dead' = FALSE /\ bad' = bad /\ st' = [st EXCEPT !.recs = @ + 1, !.hists = @ + 1]
        ELSE IF dead THEN UNCHANGED <<L, dead, bad>> /\ st' = [st EXCEPT !.recs = @ + 1]
        ELSE IF r.op = "new" THEN
-            /\ L' = LInit(~r.nolen, IF r.nolen THEN Zero ELSE r.len) /\ UNCHANGED <<dead, bad>> /\ st' = [st EXCEPT !.recs = @ + 1]
+            /\ L' = LInitF(~r.nolen, IF r.nolen THEN Zero ELSE r.len, r.fin) /\ UNCHANGED <<dead, bad>> /\ st' = [st EXCEPT !.recs = @ + 1]
        ELSE \E x \in {[L1 |-> LApply(L, r)]} : \E rule \in {Rule(x.L1, r)} :
             /\ L' = x.L1
             /\ dead' = (rule # "")
